@@ -179,4 +179,85 @@ example : (run true State.empty
        some ⟨0, ⟨1/2, 7/10, none⟩, true⟩, none, some ⟨0, ⟨1/2, 7/10, none⟩, false⟩] := by
   decide +kernel
 
+/-! ## Memo tables in general
+
+Every cache of the code base (structure-function objects, scale-variation operators, projector
+matrices, interpolators of N3LO grids) is a memo table: `tbl[key i]` is filled with `compute i` on a
+miss and returned on a hit.  It is transparent — every answer of every history equals `compute` of
+the request — exactly when the key determines the value; a key that forgets something the value
+depends on has a two-request history with a wrong answer (the pattern of every seeded "memo" change). -/
+
+structure Memo (I K V : Type) where
+  key : I → K
+  compute : I → V
+
+variable {I K V : Type} [DecidableEq K]
+
+def Memo.step (m : Memo I K V) (tbl : K → Option V) (i : I) : (K → Option V) × V :=
+  match tbl (m.key i) with
+  | some v => (tbl, v)
+  | none => (fun k => if k = m.key i then some (m.compute i) else tbl k, m.compute i)
+
+/-- run a history from a table, collecting the answers -/
+def Memo.run (m : Memo I K V) : (K → Option V) → List I → List V
+  | _, [] => []
+  | tbl, i :: rest => (m.step tbl i).2 :: m.run (m.step tbl i).1 rest
+
+/-- every stored value was computed from a request with that key -/
+def Memo.Inv (m : Memo I K V) (tbl : K → Option V) : Prop :=
+  ∀ k v, tbl k = some v → ∃ i, m.key i = k ∧ m.compute i = v
+
+theorem Memo.step_correct (m : Memo I K V) (hkey : ∀ i j, m.key i = m.key j → m.compute i = m.compute j)
+    (tbl : K → Option V) (hinv : m.Inv tbl) (i : I) :
+    (m.step tbl i).2 = m.compute i ∧ m.Inv (m.step tbl i).1 := by
+  unfold Memo.step
+  cases h : tbl (m.key i) with
+  | some v =>
+    obtain ⟨j, hj, hv⟩ := hinv _ _ h
+    exact ⟨by simp only; rw [← hv]; exact hkey j i hj, hinv⟩
+  | none =>
+    refine ⟨rfl, ?_⟩
+    intro k v hk
+    simp only at hk
+    by_cases hk' : k = m.key i
+    · simp only [hk', if_true, Option.some.injEq] at hk
+      exact ⟨i, hk'.symm, hk⟩
+    · simp only [hk', if_false] at hk
+      exact hinv k v hk
+
+/-- **history independence of a memo table with a complete key** -/
+theorem Memo.run_eq_map (m : Memo I K V) (hkey : ∀ i j, m.key i = m.key j → m.compute i = m.compute j) :
+    ∀ (h : List I) (tbl : K → Option V), m.Inv tbl → m.run tbl h = h.map m.compute := by
+  intro h
+  induction h with
+  | nil => intro _ _; rfl
+  | cons i rest ih =>
+    intro tbl hinv
+    obtain ⟨h1, h2⟩ := m.step_correct hkey tbl hinv i
+    simp only [Memo.run, List.map, h1, ih _ h2]
+
+omit [DecidableEq K] in
+theorem Memo.inv_empty (m : Memo I K V) : m.Inv (fun _ => none) := by
+  intro k v h; simp at h
+
+/-- **an incomplete key is observable**: two requests with the same key and different values give
+a two-step history whose second answer is wrong -/
+theorem Memo.incomplete_key_is_wrong (m : Memo I K V) (i j : I) (hk : m.key i = m.key j)
+    (hv : m.compute i ≠ m.compute j) :
+    m.run (fun _ => none) [i, j] ≠ [i, j].map m.compute := by
+  simp only [Memo.run, Memo.step, List.map]
+  simp only [hk, if_true]
+  intro h
+  simp only [List.cons.injEq, and_true] at h
+  exact hv h.2
+
+/-- instance: the scale-variation operator cache `operators[(label, nf)]` of one `ScaleVariations`
+object (one interpolation basis): the key is complete iff the operator depends on nothing else -/
+example (op : String → Nat → Nat) :
+    ∀ h : List (String × Nat),
+      (Memo.mk (I := String × Nat) (K := String × Nat) (V := Nat) id (fun p => op p.1 p.2)).run (fun _ => none) h
+        = h.map fun p => op p.1 p.2 :=
+  fun h => Memo.run_eq_map _ (by intro i j hij; simp only [id] at hij; rw [hij]) h _ (Memo.inv_empty _)
+
+
 end Yadism.C14
